@@ -215,3 +215,75 @@ def check_only_spawn_site() -> bool:
                             node.func.attr == "Process" and "psutil" not in ast.dump(node.func):
                         sites.append(fn.name)
     return set(sites) == {"_adjust_process_count"}
+
+
+def check_worker_timeout_path(events: List[int], lock_held: List[bool]) -> bool:
+    """
+    pre: len(events) <= 3 and len(lock_held) == len(events)
+    pre: all(0 <= e <= 1 for e in events)
+    post: _
+    """
+    # real _process_worker against a call queue that delivers tasks (1) and idle time-outs (0 = queue.Empty);
+    # when a time-out fires the management lock is free or held (workers being spawned / resize in progress)
+    import os
+    import queue as _q
+    from .c04_contain import _RQ, _with_tb_stub
+    from loky.process_executor import _CallItem, _ResultItem
+    events = [_conc(e, 1) for e in events]
+    log = Log()
+    order = []
+    idx = [0]
+    held_now = [False]
+
+    class CQ:
+        def get(self, block=True, timeout=None):
+            if timeout != 2.5:
+                raise RuntimeError("harness: worker does not wait with its configured timeout")
+            i = idx[0]
+            idx[0] += 1
+            if i >= len(events):
+                order.append(("get-sentinel",))
+                return None
+            if events[i] == 0:
+                held_now[0] = bool(lock_held[i])
+                order.append(("timeout", held_now[0]))
+                raise _q.Empty()
+            order.append(("task", i))
+            return _CallItem(i, len, ((),), {})
+
+    class MLock:
+        def acquire(self, block=True):
+            order.append(("try-mgmt", block))
+            return not held_now[0]
+
+        def release(self):
+            order.append(("rel-mgmt",))
+
+    rq = _RQ([])
+    orig_put = rq.put
+    rq.put = lambda obj: (order.append(("put", obj if isinstance(obj, int) else ("result", obj.work_id))), orig_put(obj))[1]
+    exit_lock = FakeLock(log, "exit")
+    saved = (pe._CURRENT_DEPTH, pe._global_shutdown, pe._enable_faulthandler_if_needed, pe.time, pe._USE_PSUTIL)
+    pe._enable_faulthandler_if_needed = lambda: None
+    pe.time = lambda: 0.0
+    pe._USE_PSUTIL = False
+    try:
+        _process_worker(CQ(), rq, None, (), MLock(), 2.5, exit_lock, 1)
+    finally:
+        (pe._CURRENT_DEPTH, pe._global_shutdown, pe._enable_faulthandler_if_needed, pe.time, pe._USE_PSUTIL) = saved
+    # reference: serve tasks; on a time-out leave iff the management lock is free
+    exp = []
+    left = False
+    for i, e in enumerate(events):
+        if e == 1:
+            exp += [("task", i), ("put", ("result", i))]
+        else:
+            exp += [("timeout", bool(lock_held[i])), ("try-mgmt", False)]
+            if not lock_held[i]:
+                exp += [("rel-mgmt",), ("put", os.getpid())]
+                left = True
+                break
+    if not left:
+        exp += [("get-sentinel",), ("put", os.getpid())]
+    # the exit is announced exactly once, last, never while a fetched task is unanswered, then the exit lock is taken
+    return order == exp and exit_lock.held and log[-1] == ("acquire", "exit")
